@@ -94,7 +94,7 @@ def length(fl, rf, N, arrays):
 def run(ix, R):
     _run(ix, R)
     from rules.common import memo_obligation
-    memo_obligation(ix, R, 'M.memo', ['taurex/data/profiles/chemistry/'], 'the chemistry and gas profiles')
+    memo_obligation(ix, R, 'M.memo', ['taurex/data/profiles/chemistry/', 'taurex/cache/opacitycache.py'], 'the chemistry and gas profiles and the molecule discovery they use')
 
 
 def _run(ix, R):
